@@ -173,7 +173,7 @@ def worker(ctx):
         run_unit(ctx, unit)
         st.count("units")
         if i < 1 and ctx.idx < 2:
-            st.sample({"args": unit["args"], "mode": unit["mode"], "out": unit["out"], "input": unit["input"][:200].decode()})
+            st.sample({"args": unit["args"], "mode": unit["mode"], "out": unit["out"], "input": unit["input"][:200].decode("utf-8", "replace")})
 
 
 def run(env):
